@@ -242,15 +242,15 @@ async def scenario_h2(env: Any, case: Dict[str, Any]) -> Any:
                 if client.streams.get(sid, {}).get("ended"):
                     break
                 await env.settle(50.0)
-            client.upload(sid, body, req["frames"], end_stream=True)  # ... then the upload
+            client.upload(sid, body, req["frames"], end_stream=True, pad=req.get("pad", 0))  # ... then the upload
         elif len(body) == 0 and req["end_with_headers"]:
             client.request(hs, end_stream=True)
         else:
             sid = client.request(hs, end_stream=False)
             if trunc is not None:
-                client.upload(sid, body[:trunc], req["frames"], end_stream=False)
+                client.upload(sid, body[:trunc], req["frames"], end_stream=False, pad=req.get("pad", 0))
             else:
-                client.upload(sid, body, req["frames"], end_stream=True)
+                client.upload(sid, body, req["frames"], end_stream=True, pad=req.get("pad", 0))
         stalls = 0
         while stalls < 60:
             await flush()
